@@ -11,6 +11,7 @@ import (
 	digest "github.com/opencontainers/go-digest"
 
 	"github.com/olareg/olareg/config"
+	"github.com/olareg/olareg/internal/store"
 	"github.com/olareg/olareg/internal/verifenv/vclock"
 	"github.com/olareg/olareg/internal/verifenv/vhttp"
 	"github.com/olareg/olareg/internal/verifenv/vos"
@@ -153,3 +154,12 @@ func vhBytesEq(a, b []byte) bool {
 }
 
 var _ = time.Second
+
+// vhHoldRepo takes the repository's block token as a running collection does.
+func vhHoldRepo(s *Server, name string) func() {
+	st := s.store
+	if rec, ok := st.(*vhRecStore); ok {
+		st = rec.inner
+	}
+	return store.HoldRepoForTest(st, name)
+}
